@@ -247,7 +247,7 @@ Program gen_program(uint64_t seed, const GenParams &gp, const std::string &profi
             } else if (x < 0.95 && gp.redef) {
                 o.kind = OP_REDEF; if (emit(o)) { define_phase(false); }
             } else if (gp.fill && v.isrec) { o.kind = OP_FILL_VAR_REC; o.a[0] = rng.range(0, f.numrecs + 1); emit(o); }
-            else if (gp.meta_heavy) { o.kind = OP_RENAME_VAR; o.name2 = v.name.substr(0, std::max<size_t>(1, v.name.size() - 1)); if (o.name2 != v.name) emit(o); }
+            else if (gp.meta_heavy) { o.kind = OP_RENAME_VAR; size_t cut = std::max<size_t>(1, v.name.size() - 1); while (cut > 1 && ((unsigned char)v.name[cut] & 0xC0) == 0x80) cut--; o.name2 = v.name.substr(0, cut); if (o.name2 != v.name) emit(o); }
             if (gp.checkpoint_each) checkpoint();
         }
         if (f.open) {
